@@ -35,16 +35,21 @@ Print Assumptions C11_refuted_collapse.
    [run_C11] prints. *)
 Theorem C11_outside_known : forall n hist final,
   let c := C11Case n hist final in
+  known_C11 c = [] ->
+  ev_guard (run_events false (init_sys n) (c11_ops c)) = false ->
+  forallb inv_sys_b (run_trace false (init_sys n) (c11_ops c)) = true.
+Proof. exact outside_known'. Qed.
+Print Assumptions C11_outside_known.
+
+(* the same with the event spelled out (class 3 histories included: the collapse of two deletion
+   records does not make a row visible again) *)
+Theorem C11_no_resurrection_no_violation : forall n hist final,
+  let c := C11Case n hist final in
   ev_resurrect (run_events false (init_sys n) (c11_ops c)) = false ->
   ev_guard (run_events false (init_sys n) (c11_ops c)) = false ->
   forallb inv_sys_b (run_trace false (init_sys n) (c11_ops c)) = true.
 Proof. exact outside_known. Qed.
-Print Assumptions C11_outside_known.
-
-Theorem C11_known_nil_no_resurrect : forall c, known_C11 c = [] ->
-  ev_resurrect (run_events false (init_sys (c11_n c)) (c11_ops c)) = false.
-Proof. exact known_nil_no_resurrect. Qed.
-Print Assumptions C11_known_nil_no_resurrect.
+Print Assumptions C11_no_resurrection_no_violation.
 
 (* a stored deletion record is never lost: its key (row id, deletion date) stays in the peer's log
    through every step *)
